@@ -25,6 +25,7 @@ TIERS = {
     "thorough": {"runs": 60000, "budget": 2400, "selftest": 400, "shrink_budget": 200, "chunk": 16, "task_timeout": 1800},
 }
 RUN_TIMEOUT_S = 300
+HISTORY_REPLAY = False  # every tool run is a forked child: nothing can leak from one scenario into the next
 RULE = (
     "Fault enumeration: for three fixed base scenarios (plain STFT 4 utterances; STFT + --seed + dither 3 utterances "
     "with prefix ids; SI computer + 2 simulated workers 3 utterances) EVERY traced line event of the tool function and "
